@@ -90,7 +90,11 @@ acc!(q_acc_swap, q_acc_clone_swap, r1_acc_rel_swap, Swp<Dt>, mk_dt());
 acc!(r2_acc_swapthin, q_acc_clone_swapthin, r0_acc_rel_swapthin, SwpThin<Dt, Dt>, mk_hs_n::<1>());
 // over-aligned payload: the count word is NOT the word right in front of the data (padding is)
 acc!(q_acc_offset_a32, q_acc_clone_offset_a32, r1_acc_rel_offset_a32, OffsetArc<S33a32>, mk_a32());
-acc!(q_acc_union2_a32, r0_acc_clone_union2_a32, r2_acc_rel_union2_a32, U2<S33a32>, mk_a32());
+// (accessors only: the clone / release variants of this cell need > 14 GB in CBMC on some code shapes)
+h!(q_acc_union2_a32, {
+    let (a, n) = mk_a32();
+    accessors::<U2<S33a32>>(a, n)
+});
 acc!(r2_acc_arc_a32, r1_acc_clone_arc_a32, r0_acc_rel_arc_a32, Arc<S33a32>, mk_a32());
 acc!(r0_acc_raw_a32, r2_acc_clone_raw_a32, r2_acc_rel_raw_a32, Raw<S33a32>, mk_a32());
 acc!(r2_acc_arc_dyn, r2_acc_clone_arc_dyn, r2_acc_rel_arc_dyn, Arc<dyn Tr>, mk_dyn());
